@@ -48,6 +48,9 @@ type Obs struct {
 	Written [][2]string `json:"written"`
 	Failed  []int       `json:"failed"`
 	Late    int         `json:"late"`
+	// real-post-processor stream: how often the slice handed to the write callback changed
+	// while the callback was running
+	Unstable int `json:"unstable"`
 }
 
 type Case struct {
@@ -387,7 +390,7 @@ func stdJob(j int) [2]string {
 	return [2]string{fmt.Sprintf("gen/pkg%d/file%d.go", j, j), contentOf(j, fmt.Sprintf("package p%d", j))}
 }
 
-func shardHeader() string {
+func shardHeader(srcs []source, persistRoot string) string {
 	var b strings.Builder
 	b.WriteString("From Verif Require Import Base.Bytes Gen.Persist Corr.C19.\nFrom Coq Require Import String.\n")
 	for j := 0; j < 8; j++ {
@@ -397,6 +400,17 @@ func shardHeader() string {
 		pairNames[ob] = fmt.Sprintf("O%d", j)
 		fmt.Fprintf(&b, "Definition J%d := (B \"%s\"%%string, B \"%s\"%%string).\n", j, jb[0], jb[1])
 		fmt.Fprintf(&b, "Definition O%d := (B \"%s\"%%string, B \"%s\"%%string).\n", j, ob[0], ob[1])
+	}
+	// the sources of the real-post-processor stream: (path, digest of the expected content)
+	for i, sr := range srcs {
+		pr := [2]string{sr.path, digest(sr.expected)}
+		pairNames[pr] = fmt.Sprintf("G%d", i)
+		fmt.Fprintf(&b, "Definition G%d := (B \"%s\"%%string, B \"%s\"%%string).\n", i, pr[0], pr[1])
+		pp := [2]string{filepath.Join(persistRoot, sr.path), pr[1]}
+		if !strings.ContainsAny(pp[0], "\"\\") {
+			pairNames[pp] = fmt.Sprintf("P%d", i)
+			fmt.Fprintf(&b, "Definition P%d := (B \"%s\"%%string, B \"%s\"%%string).\n", i, pp[0], pp[1])
+		}
 	}
 	return b.String()
 }
@@ -461,9 +475,9 @@ func coqCase(c *Case) string {
 	if c.Mode == "free" {
 		mode = 1
 	}
-	return fmt.Sprintf("mkcase %d %d %s %s %d %s %s %s \"%s\" %s %s %s %d",
+	return fmt.Sprintf("mkcase %d %d %s %s %d %s %s %s \"%s\" %s %s %s %d %d",
 		c.Kind, mode, coqfmt.Bool(c.ResErr), coqPairs(c.Jobs), k, coqfmt.Bool(c.PPNil), coqNats(c.FPP), coqNats(c.FW),
-		tr, coqRes(c.Res), coqPairs(c.Written), coqNats(c.Failed), c.Late)
+		tr, coqRes(c.Res), coqPairs(c.Written), coqNats(c.Failed), c.Late, c.Unstable)
 }
 
 // ---------------------------------------------------------------- generation
@@ -491,6 +505,10 @@ type stats struct {
 	Hangs              int            `json:"hangs"`
 	MaxTraceEvents     int            `json:"max_trace_events"`
 	FaultConfigs       int            `json:"fault_assignments_enumerated"`
+	RealPPSources      int            `json:"real_postprocessor_sources"`
+	RealPPSourceBytes  int            `json:"real_postprocessor_source_bytes"`
+	RealPPRuns         int            `json:"real_postprocessor_runs"`
+	RealPPFilesChecked int            `json:"real_postprocessor_files_content_checked"`
 }
 
 func main() {
@@ -506,7 +524,13 @@ func main() {
 	os.MkdirAll(fsbase, 0o755)
 	thorough := *tier == "thorough"
 	r := rng.New(*seed*0x9e3779b97f4a7c15 + 19)
-	w := casefile.New(*out, shardHeader(), 1500)
+	realSrcs, realBE, err := realSources(20, rng.New(*seed*0x9e3779b97f4a7c15+1919))
+	if err != nil {
+		fmt.Fprintln(os.Stderr, "real post-processor stream:", err)
+		os.Exit(2)
+	}
+	persistRoot, _ := filepath.Abs(filepath.Join(fsbase, "rp"))
+	w := casefile.New(*out, shardHeader(realSrcs, persistRoot), 700)
 	st := &stats{ByMode: map[string]int{}, ByJobs: map[int]int{}, ByLimit: map[int]int{}, ByProcs: map[int]int{},
 		ByResult: map[string]int{}, ByKind: map[string]int{}}
 	seen := map[string]*Case{}
@@ -530,6 +554,10 @@ func main() {
 		}
 		st.ByResult[rc]++
 		st.ByKind[cfg.What]++
+		if cfg.Kind == 2 {
+			st.RealPPRuns++
+			st.RealPPFilesChecked += len(o.Written)
+		}
 		if strings.Contains(o.Trace, "r") {
 			st.RecvErrInLoop++
 		} else if strings.HasPrefix(o.Res, "err:") {
@@ -579,7 +607,7 @@ func main() {
 		return p
 	}
 
-	maxN, maxK, forcedPer, freePer := 4, 3, 3, 1
+	maxN, maxK, forcedPer, freePer := 4, 3, 2, 1
 	if thorough {
 		maxN, maxK, forcedPer, freePer = 6, 4, 5, 0
 	}
@@ -709,6 +737,45 @@ func main() {
 		st.Configs++
 		record(cfg, runFree(cfg, r.Fork(), procs, dir))
 		os.RemoveAll(dir)
+	}
+
+	// 5. the REAL Go backend post-processor on many really generated sources, concurrency >= 2
+	nForcedReal, nFreeReal, nPersistReal := 25, 45, 15
+	if thorough {
+		nForcedReal, nFreeReal, nPersistReal = 300, 600, 150
+	}
+	if !stop() {
+		srcs, be := realSrcs, realBE
+		st.RealPPSources = len(srcs)
+		for _, s := range srcs {
+			st.RealPPSourceBytes += len(s.content)
+		}
+		pickFW := func() []int {
+			if r.Chance(1, 6) {
+				return []int{r.Intn(16)}
+			}
+			return []int{}
+		}
+		for i := 0; i < nForcedReal && !stop(); i++ {
+			cfg, o := runReal(srcs, be, "forced", r.Range(2, 8), r.Range(1, 8), pickFW(), r.Fork(), "")
+			st.Configs++
+			record(&cfg, o)
+		}
+		for i := 0; i < nFreeReal && !stop(); i++ {
+			cfg, o := runReal(srcs, be, "free", r.Range(2, 8), r.Range(1, 8), pickFW(), r.Fork(), "")
+			st.Configs++
+			record(&cfg, o)
+		}
+		for i := 0; i < nPersistReal && !stop(); i++ {
+			dir := persistRoot
+			os.RemoveAll(dir)
+			os.MkdirAll(dir, 0o755)
+			procs := r.Range(2, 8)
+			cfg, o := runReal(srcs, be, "persist", procs, procs, []int{}, r.Fork(), dir)
+			st.Configs++
+			record(&cfg, o)
+			os.RemoveAll(dir)
+		}
 	}
 	os.RemoveAll(fsbase)
 
